@@ -65,7 +65,7 @@ class SpatialTransform(DeviceProperty, Module, metaclass=ABCMeta):
         """
         copy = self.__new__(type(self))
         copy.__dict__ = self.__dict__.copy()
-        for name in ("_buffers", "_non_persistent_buffers_set", "_modules"):
+        for name in ("_parameters", "_buffers", "_non_persistent_buffers_set", "_modules"):
             if name in self.__dict__:
                 copy.__dict__[name] = self.__dict__[name].copy()
         return copy
